@@ -1535,19 +1535,19 @@ QMap<QByteArray, QByteArray> QXmppSaslDigestMd5::parseMessage(const QByteArray &
             // check whether string is quoted
             // skip opening quote
             pos++;
-            int endPos = ba.indexOf('"', pos);
-            // skip quoted quotes
-            while (endPos >= 0 && ba.at(endPos - 1) == '\\') {
-                endPos = ba.indexOf('"', endPos + 1);
+            // find the closing quote and unquote: a backslash escapes the next character (quoted-pair)
+            QByteArray value;
+            int endPos = pos;
+            while (endPos < ba.size() && ba.at(endPos) != '"') {
+                if (ba.at(endPos) == '\\' && endPos + 1 < ba.size()) {
+                    endPos++;
+                }
+                value.append(ba.at(endPos++));
             }
-            if (endPos < 0) {
+            if (endPos >= ba.size()) {
                 qWarning("Unfinished quoted string");
                 return map;
             }
-            // unquote
-            QByteArray value = ba.mid(pos, endPos - pos);
-            value.replace("\\\"", "\"");
-            value.replace("\\\\", "\\");
             map[key] = value;
             // skip closing quote and comma
             startIndex = endPos + 2;
